@@ -2042,3 +2042,20 @@ mod tests {
         assert_eq!(repl_program.get_types()[receive], Type::Integer);
     }
 }
+
+/// Verification hook (feature `verif`): read-only view of the resource ownership map.
+#[cfg(feature = "verif")]
+impl<E: Effect> Environment<E> {
+    pub fn verif_resource_ownership(&self) -> Vec<(ResourceId, ProcessId)> {
+        let mut v: Vec<(ResourceId, ProcessId)> =
+            self.resource_ownership.iter().map(|(r, p)| (*r, *p)).collect();
+        v.sort_unstable();
+        v
+    }
+
+    pub fn verif_persistent_processes(&self) -> Vec<ProcessId> {
+        let mut v: Vec<ProcessId> = self.persistent_processes.iter().copied().collect();
+        v.sort_unstable();
+        v
+    }
+}
